@@ -33,6 +33,14 @@ Definition hdr_bytes_out (h : out_hdr) : list byte :=
 Definition rm_new (buf : list byte) (clen : nat) : R unit :=
   if Nat.ltb (length buf) (OUT_HDR + NLEN + clen) then Panic P_ASSERT else Ok tt.
 
+(* new() as it was before commit 004c7e7: the datagram length reported in the
+   header was taken for a lower bound of the buffer length; kept for the
+   witness in prop/C13.v *)
+Definition rm_new_v0 (buf : list byte) (clen : nat) : R unit :=
+  if Nat.ltb (length buf) OUT_HDR then Panic P_ASSERT else
+  if (NN (length buf) <? NN (OUT_HDR + NLEN + clen) + oh_payloadlen (parse_hdr buf))%N
+  then Panic P_ASSERT else Ok tt.
+
 (* data(): &buffer[offset..] *)
 Definition rm_data (buf : list byte) (clen : nat) : R (nat * list byte) :=
   let off := OUT_HDR + NLEN + clen in
